@@ -4,7 +4,7 @@ one crate; a Julia-subset interpreter, because Julia is not installed).
 
 Outcomes (shared vocabulary with coq/codegen/Codegen.v `outcome`):
   ("ok", [Fraction]) | ("scalar", Fraction) | ("none",) | ("unbound",) | ("arity",) | ("fn",)
-  | ("illformed",) | ("other", text)   -- "other" has no counterpart in the model
+  | ("junk",) | ("illformed",) | ("other", text)   -- "other" has no counterpart in the model
 """
 
 from __future__ import annotations
@@ -153,7 +153,9 @@ def read_skeleton(lang: str, text: str) -> dict:
             raise ValueError(f"statement {s!r}")
         sk["body"].append((_pname(mm.group(1)), _lit(mm.group(2))))
     r = stmts[-1]
-    if lang in ("py", "jl"):
+    if lang == "py" and re.fullmatch(r"return \[(.*)\]", r):
+        inner = r[len("return [") : -1]  # the repaired Python template
+    elif lang in ("py", "jl"):
         mm = re.fullmatch(r"return ?(.*)", r)
         inner = mm.group(1) if mm else None
     elif lang == "ts":
@@ -187,8 +189,10 @@ def _classify_value(res: Any) -> tuple:
     if isinstance(res, (tuple, list)):
         try:
             return ("ok", [to_fraction(x) for x in res if _isnum(x, strict=True)])
-        except (ValueError, TypeError) as e:
-            return ("other", f"non-numeric entries: {e}")
+        except TypeError:
+            return ("junk",)  # a list whose entries are not numbers (Python's `return [()]`)
+        except ValueError as e:
+            return ("other", f"non-finite entries: {e}")
     return ("other", f"returned {type(res).__name__}")
 
 
